@@ -862,6 +862,25 @@ def symbolic(ck):
                 env.append(r)
                 ck.count(("sym", cop, str(r.affine.tolist())), nontrivial=True, bucket="symbolic:ok:" + kind)
             ops.append(cop)
+        # inverse of symbolic maps (sympy branch of AffineTransform.inverse): exact check, Minv * M = I
+        for m_ in [e_ for e_ in env if e_.ndims[0] == e_.ndims[1]][:2]:
+            Ms = sympy.Matrix(np.asarray(m_.affine).tolist())
+            if sympy.simplify(Ms.det()) == 0:
+                continue
+            try:
+                mi = m_.inverse()
+            except Exception as e:  # noqa
+                ck.fail("symbolic/inverse/raises", "inverse() of an invertible symbolic map raised %s: %s" % (type(e).__name__, e), {"matrix": str(m_.affine.tolist())})
+                continue
+            ck.count(("sym-inv", str(m_.affine.tolist())), nontrivial=mi is not None, bucket="symbolic:inverse")
+            if mi is None:
+                ck.fail("symbolic/inverse/missing", "an invertible symbolic map has no inverse", {"matrix": str(m_.affine.tolist())})
+            else:
+                P = (sympy.Matrix(np.asarray(mi.affine).tolist()) * Ms - sympy.eye(Ms.shape[0])).applyfunc(
+                    lambda e_: sympy.simplify(sympy.nsimplify(e_, rational=True)))
+                if any(e_ != 0 for e_ in P) or mi.function_domain.coord_names != m_.function_range.coord_names or mi.function_range.coord_names != m_.function_domain.coord_names:
+                    ck.fail("symbolic/inverse/does-not-undo", "the inverse of a symbolic map times the map is not the identity (or the systems are not swapped)",
+                            {"matrix": str(m_.affine.tolist()), "inverse": str(mi.affine.tolist())})
         if not ops:
             continue
         for _ in range(2):
@@ -884,6 +903,80 @@ def symbolic(ck):
                 ck.fail("model-vs-impl/symbolic-program", "a program on symbolic (sympy) maps, evaluated at integer values of the symbols, is not what the model computes from the evaluated inputs", m)
                 break
     ck.section("symbolic", programs=nprog, substituted_comparisons=len(terms))
+
+
+def cmaps_more(ck):
+    """General CoordinateMaps in mixed company: compose() chains of 3-4 maps mixing CoordinateMap and AffineTransform
+    objects (including runs of adjacent affines), shifted origins of general maps, and the inverse of every result -
+    all against the function semantics (apply the parts in turn; an inverse undoes its map)."""
+    from nipy.core.reference import coordinate_map as cmod
+    from nipy.core.api import AffineTransform, CoordinateSystem as CS
+    rng = ck.rng("cmaps_more")
+    ncases = ck.n(150, 1500)
+    for case in range(ncases):
+        k = int(rng.integers(2, 5))
+        names = [str(v) for v in rng.permutation(NAMES + ["p", "q", "r", "s", "o", "e", "f", "g"])]
+        square = rng.random() < 0.6
+        n0 = int(rng.integers(1, 4))
+        dims = [n0] * (k + 1) if square else [int(rng.integers(1, 4)) for _ in range(k + 1)]
+        systems, pos = [], 0
+        for d in dims:
+            systems.append(CS(names[pos:pos + d], str(rng.choice(SYSNAMES)), np.float64)); pos += d
+        affs = []
+        for j in range(k):
+            M = np.zeros((dims[j + 1] + 1, dims[j] + 1))
+            M[:-1, :-1] = rand_unimodular(rng, dims[j]) if dims[j] == dims[j + 1] else rng.integers(-2, 3, (dims[j + 1], dims[j]))
+            M[:-1, -1] = rng.integers(-4, 5, dims[j + 1]); M[-1, -1] = 1
+            affs.append(AffineTransform(systems[j], systems[j + 1], M))
+        kinds = [("cmap" if rng.random() < 0.45 else "affine") for _ in range(k)]
+        if "cmap" not in kinds:
+            kinds[int(rng.integers(0, k))] = "cmap"
+        objs = [make_cmap(a) if kd == "cmap" else a for a, kd in zip(affs, kinds)]
+        meta = {"maps_applied_first_to_last": [caff(a) for a in affs], "kinds": kinds}
+        x = rng.integers(-5, 6, dims[0]).astype(float)
+        want = x
+        for a in affs:
+            want = a(want)
+        # ---- compose(last, ..., first)
+        try:
+            r = cmod.compose(*objs[::-1])
+        except Exception as e:  # noqa
+            ck.fail("compose-mixed/raises/" + "-".join(kinds), "compose() of a valid chain mixing CoordinateMap and AffineTransform objects raised %s: %s" % (type(e).__name__, e), meta)
+            continue
+        ck.count(("cmix", tuple(kinds), tuple(dims), case), nontrivial=True, bucket="compose-mixed:k=%d:%s" % (k, "adjacent-affines" if any(kinds[i] == kinds[i + 1] == "affine" for i in range(k - 1)) else "no-adjacent-affines"))
+        got = np.asarray(r(x), dtype=float)
+        if not np.array_equal(got, want) or r.function_domain != systems[0] or r.function_range.coord_names != systems[-1].coord_names:
+            ck.fail("compose-mixed/not-sequential-application/" + ("adjacent-affines" if any(kinds[i] == kinds[i + 1] == "affine" for i in range(k - 1)) else "other"),
+                    "evaluating compose() of a chain mixing CoordinateMap and AffineTransform objects differs from applying the maps one after the other",
+                    dict(meta, x=x.tolist(), got=got.tolist(), expected=want.tolist()))
+        invertible = square
+        if invertible:
+            ri = r.inverse()
+            if ri is None:
+                ck.fail("compose-mixed/inverse-missing", "every part has an inverse but the composition has none", meta)
+            elif not np.allclose(np.asarray(ri(r(x)), dtype=float), x, atol=1e-9) or not np.allclose(np.asarray(r(ri(want)), dtype=float), want, atol=1e-9):
+                ck.fail("compose-mixed/inverse-does-not-undo", "the inverse of a composition of invertible maps does not undo it", dict(meta, x=x.tolist()))
+        # ---- shifted origins of one part (general map or affine)
+        j = int(rng.integers(0, k)); obj, a = objs[j], affs[j]
+        xin = rng.integers(-5, 6, dims[j]).astype(float)
+        dd = rng.integers(-3, 4, dims[j]).astype(float); dr = rng.integers(-3, 4, dims[j + 1]).astype(float)
+        for which, fn, d_, expect in (("domain", cmod.shifted_domain_origin, dd, lambda: a(xin + dd)), ("range", cmod.shifted_range_origin, dr, lambda: a(xin) - dr)):
+            try:
+                sft = fn(obj, d_, "neworigin")
+            except Exception as e:  # noqa
+                ck.fail("shift-%s/raises/%s" % (which, kinds[j]), "shifted_%s_origin raised %s: %s" % (which, type(e).__name__, e), dict(meta, part=j))
+                continue
+            ck.count(("shift", which, kinds[j], case), nontrivial=True, bucket="shift:%s:%s" % (which, kinds[j]))
+            if not np.array_equal(np.asarray(sft(xin), dtype=float), np.asarray(expect(), dtype=float)):
+                ck.fail("shift-%s/value/%s" % (which, kinds[j]), "shifted_%s_origin does not evaluate to the shifted map" % which, dict(meta, part=j, x=xin.tolist(), shift=d_.tolist()))
+            if dims[j] == dims[j + 1]:
+                si = sft.inverse()
+                if si is None:
+                    ck.fail("shift-%s/inverse-missing/%s" % (which, kinds[j]), "the shifted map of an invertible map has no inverse", dict(meta, part=j))
+                elif not np.allclose(np.asarray(si(sft(xin)), dtype=float), xin, atol=1e-9):
+                    ck.fail("shift-%s/inverse-does-not-undo/%s" % (which, kinds[j]), "the inverse of a map with shifted origin does not undo it",
+                            dict(meta, part=j, x=xin.tolist(), shift=d_.tolist(), got=np.asarray(si(sft(xin)), dtype=float).tolist()))
+    ck.section("cmaps_more", cases=ncases)
 
 
 def run(ck):
@@ -970,6 +1063,7 @@ def run(ck):
         ck.note("inverse() returned a map for %d exactly singular integer matrices (numpy.linalg.inv did not raise); "
                 "no inverse exists there, so the round-trip clause does not apply: e.g. %s" % (len(ck_note_singular), ck_note_singular[0][:300]))
     cmaps(ck)
+    cmaps_more(ck)
     axes(ck)
     batches(ck)
     symbolic(ck)
